@@ -61,7 +61,7 @@ Inductive op19 :=
            getter answers; observed: sorted results, gossip verdicts, underlying calls *)
 | KPark (parked : bool) (g a : hdr) (i : hin)
         (r1 r2 r3 r4 : option robs).
-        (* the witness of known finding F19: a gossip head g is delivered; with [parked] the
+        (* the witness of the former finding F19 (fixed by /repo dd38a4c): a gossip head g is delivered; with [parked] the
            verifier call is held between setLocalHead's store-head comparison and pending.Add;
            caller 1 learns the higher head a; the sync loop completes; caller 2 (failing answer)
            returns; the verifier call resumes; caller 1 finishes; caller 3 (failing answer),
@@ -310,21 +310,9 @@ Definition model19 (c : case19) : list op19 :=
 Definition ok19 (c : case19) : bool :=
   ok_ops (k_p c) (link_tv (k_range c)) (k_sync c) (s0_of c) 0 (k_ops c).
 
-(** known-finding class 1 (F19): the case parks a gossip verifier call between the two
-    halves of setLocalHead AND the observation shows the finding as recorded - the head
-    handed out afterwards (caller 3) is below an earlier one, and after the sync loop's
-    clean-up (caller 4) Head() is back at or above everything returned before.  A parked
-    case in which Head() does NOT recover is outside the class: a different (permanent)
-    violation, reported as such. *)
-Definition is_parked (o : op19) : bool := match o with KPark true _ _ _ _ _ _ _ => true | _ => false end.
-Definition is_f19 (o : op19) : bool :=
-  match o with
-  | KPark true _ _ _ r1 r2 r3 r4 =>
-    ole (oheight r1) (oheight r4) && ole (oheight r2) (oheight r4) && ole (oheight r3) (oheight r4) &&
-    match oheight r4 with Some _ => true | None => false end
-  | _ => false
-  end.
-Definition class19 (c : case19) : N := if existsb is_f19 (k_ops c) then 1 else 0.
+(** no open known finding: F19 (a parked setLocalHead lowering the local head) was
+    repaired by /repo dd38a4c; its witness case (KPark true) is an ordinary case now *)
+Definition class19 (c : case19) : N := 0.
 
 Definition chk19 (c : case19) : bool * bool * N :=
   (list_eqb op_eqb (model19 c) (k_ops c), ok19 c, class19 c).
@@ -519,20 +507,6 @@ Proof.
   eapply tstep_others; [exact Hs|]. intros ->. apply (Hn x). left. reflexivity.
 Qed.
 
-Lemma park_model_atomic s g a i :
-  park_model p tv s false g a i =
-  let '(c1, t1) := crun p tv (cinit s) (park_l1c g a i) in
-  let '(c2, t2) := crun p tv c1 (park_c3 i) in
-  let '(c3, t3) := crun p tv c2 (park_c4 i) in
-  (c_s c3, option_map (proj false) (ret_of 1 t1), option_map (proj false) (ret_of 2 t1),
-   option_map (proj false) (ret_of 3 t2), option_map (proj false) (ret_of 4 t3)).
-Proof.
-  unfold park_model, park_l1, pinit. rewrite prun_atomic.
-  destruct (crun p tv (cinit s) (park_l1c g a i)) as [c1 t1]. rewrite prun_atomic.
-  destruct (crun p tv c1 (park_c3 i)) as [c2 t2]. rewrite prun_atomic.
-  destruct (crun p tv c2 (park_c4 i)) as [c3 t3]. reflexivity.
-Qed.
-
 Lemma oproj_ok lo (o : option hres) : (forall v, o = Some (ROk v) -> lo <= h_height v) ->
   forallb (mono_ok lo) (olist (option_map (proj false) o)) = true.
 Proof.
@@ -548,29 +522,34 @@ Proof.
   cbn. apply N.leb_le. apply H; reflexivity.
 Qed.
 
-Lemma park_ok_model s lo g a i : lo <= L s ->
-  let '(s1, r1, r2, r3, r4) := park_model p tv s false g a i in
+Lemma park_l1_untouched pk g a i e : In e (park_l1 pk g a i) -> ~ touches 3 e.
+Proof.
+  unfold park_l1, park_l1c, park_c1, park_c1fin. destruct pk; cbn; intros H;
+    repeat (destruct H as [<-|H]; [cbn; try discriminate; tauto|]); destruct H.
+Qed.
+
+Lemma park_ok_model s lo pk g a i : lo <= L s ->
+  let '(s1, r1, r2, r3, r4) := park_model p tv s pk g a i in
   let l := olist r1 ++ olist r2 ++ olist r3 ++ olist r4 in
   forallb (mono_ok lo) l && ole (oheight r1) (oheight r3) && ole (oheight r2) (oheight r3) = true /\
   fold_left new_lo l lo <= L s1.
 Proof.
-  intros Hlo. rewrite park_model_atomic.
-  destruct (crun p tv (cinit s) (park_l1c g a i)) as [c1 t1] eqn:H1.
-  destruct (crun p tv c1 (park_c3 i)) as [c2 t2] eqn:H2.
-  destruct (crun p tv c2 (park_c4 i)) as [c3 t3] eqn:H3.
-  assert (Hall : crun p tv (cinit s) (park_l1c g a i ++ park_c3 i ++ park_c4 i) = (c3, t1 ++ t2 ++ t3))
-    by (rewrite crun_app, H1, crun_app, H2, H3; reflexivity).
-  destruct (run_upper p tv _ _ _ _ (cinit_below s) Hall) as (_ & Hup & Hle).
+  intros Hlo. unfold park_model.
+  destruct (prun p tv (pinit s) (park_l1 pk g a i)) as [q1 t1] eqn:H1.
+  destruct (prun p tv q1 (map PEv (park_c3 i))) as [q2 t2] eqn:H2.
+  destruct (prun p tv q2 (map PEv (park_c4 i))) as [q3 t3] eqn:H3.
+  assert (Hall : prun p tv (pinit s) (park_l1 pk g a i ++ map PEv (park_c3 i) ++ map PEv (park_c4 i)) = (q3, t1 ++ t2 ++ t3))
+    by (rewrite prun_app, H1, prun_app, H2, H3; reflexivity).
+  destruct (prun_upper p tv _ (pinit s) _ _ (cinit_below s) Hall) as (_ & Hup & Hle).
   assert (Hge : forall b v, In (ORet b (ROk v)) (t1 ++ t2 ++ t3) -> L s <= h_height v).
   { intros b v Hin.
-    assert (HJ : sbj_above (L s) b (cinit s)) by (split; [cbn; lia|discriminate]).
-    destruct (run_lower p tv _ _ _ _ _ _ HJ Hall) as (_ & Hl). apply Hl. exact Hin. }
-  assert (Hidle : c_pc c1 3%nat = PIdle).
-  { rewrite (untouched 3 _ _ _ _ H1); [reflexivity|].
-    intros x Hx. cbn in Hx. repeat (destruct Hx as [Hx|Hx]; [discriminate|]). exact Hx. }
+    assert (HJ : sbj_above (L s) b (p_c (pinit s))) by (split; [cbn; lia|discriminate]).
+    destruct (prun_lower p tv _ _ _ _ _ _ HJ Hall) as (_ & Hl). apply Hl. exact Hin. }
+  assert (Hidle : c_pc (p_c q1) 3%nat = PIdle).
+  { rewrite (puntouched p tv 3 _ _ _ _ H1); [reflexivity|]. intros e He. eapply park_l1_untouched; exact He. }
   assert (Hord : forall j v1 v3, ret_of j t1 = Some (ROk v1) -> ret_of 3 t2 = Some (ROk v3) ->
                  h_height v1 <= h_height v3).
-  { intros j v1 v3 Hj H3'. eapply (monotone_conc p tv s _ _ _ _ _ _ j 3%nat v1 v3 H1 H2);
+  { intros j v1 v3 Hj H3'. eapply (monotone_full p tv s _ _ _ _ _ _ j 3%nat v1 v3 H1 H2);
       [apply ret_of_in; exact Hj|exact Hidle|apply ret_of_in; exact H3']. }
   assert (I1 : forall b r, ret_of b t1 = Some r -> In (ORet b r) (t1 ++ t2 ++ t3))
     by (intros b r Hr; apply in_or_app; left; apply ret_of_in; exact Hr).
@@ -590,7 +569,7 @@ Proof.
   - apply fold_new_lo; [cbn in Hup; lia|].
     intros j h Hin.
     assert (Hx : forall (o : option hres) b, (forall r, o = Some r -> In (ORet b r) (t1 ++ t2 ++ t3)) ->
-                 In (BOk j h) (olist (option_map (proj false) o)) -> h <= L (c_s c3)).
+                 In (BOk j h) (olist (option_map (proj false) o)) -> h <= L (c_s (p_c q3))).
     { intros o b Ho Hi. destruct o as [[v| | | | | |]|]; cbn in Hi; try (destruct Hi as [Hi|[]]; discriminate); try contradiction.
       destruct Hi as [Hi|[]]. injection Hi as _ <-. apply (Hle b). apply Ho. reflexivity. }
     apply in_app_or in Hin. destruct Hin as [Hin|Hin]; [eapply Hx; [|exact Hin]; apply I1|].
@@ -599,52 +578,41 @@ Proof.
     eapply Hx; [|exact Hin]; apply I3.
 Qed.
 
-Lemma ok_fill ops : forall s lo, lo <= L s -> existsb is_parked ops = false ->
-  ok_ops p tv sync s lo (fill p tv sync s ops) = true.
+Lemma ok_fill ops : forall s lo, lo <= L s -> ok_ops p tv sync s lo (fill p tv sync s ops) = true.
 Proof.
-  induction ops as [|o ops IH]; intros s lo Hlo Hcl; cbn; [reflexivity|].
-  cbn in Hcl. apply orb_false_iff in Hcl. destruct Hcl as [Hc0 Hcl].
+  induction ops as [|o ops IH]; intros s lo Hlo; cbn; [reflexivity|].
   destruct o as [d|h b t ok sh|st i res calls sh el|n i w d res calls sh|n i acts res gok calls sh|pk g a i r1 r2 r3 r4]; cbn.
-  - apply IH; [exact Hlo|exact Hcl].
+  - apply IH; exact Hlo.
   - pose proof (gossip_mono p tv s h b t) as Hm.
-    destruct (gossip p tv s h b t) as [s1 ok'] eqn:Hg. cbn in *. rewrite Hg. cbn. apply IH; [eapply N.le_trans; [|apply post_L]; lia|exact Hcl].
+    destruct (gossip p tv s h b t) as [s1 ok'] eqn:Hg. cbn in *. rewrite Hg. cbn. apply IH. eapply N.le_trans; [|apply post_L]; lia.
   - rewrite clause_ok_model. cbn.
     destruct (head_seq_bounds p tv s i) as [Hb1 Hb2].
     rewrite mono_ok_proj by (intros v Hv; specialize (Hb2 v Hv); lia). cbn.
-    apply IH; [|exact Hcl]. eapply N.le_trans; [|apply post_L]. apply new_lo_proj; [lia|]. intros v Hv. apply (Hb2 v Hv).
+    apply IH. eapply N.le_trans; [|apply post_L]. apply new_lo_proj; [lia|]. intros v Hv. apply (Hb2 v Hv).
   - pose proof (conc_ok_model s lo n i w d Hlo) as Hc.
     destruct (conc_model p tv s n i w d) as [[s1 res'] calls'] eqn:Hm. cbn. rewrite Hm. cbn.
-    destruct Hc as [-> Hf]. cbn. apply IH; [eapply N.le_trans; [exact Hf|apply post_L]|exact Hcl].
+    destruct Hc as [-> Hf]. cbn. apply IH. eapply N.le_trans; [exact Hf|apply post_L].
   - pose proof (sched_ok_model s lo n i acts Hlo) as Hc.
     destruct (sched_model p tv s n i acts) as [[[s1 res'] v'] calls'] eqn:Hm. cbn. rewrite Hm. cbn.
-    destruct Hc as [-> Hf]. cbn. apply IH; [eapply N.le_trans; [exact Hf|apply post_L]|exact Hcl].
-  - destruct pk; [discriminate|].
-    pose proof (park_ok_model s lo g a i Hlo) as Hc.
-    destruct (park_model p tv s false g a i) as [[[[s1 q1] q2] q3] q4] eqn:Hm. cbn. rewrite Hm. cbn.
-    destruct Hc as [-> Hf]. cbn. apply IH; [eapply N.le_trans; [exact Hf|apply post_L]|exact Hcl].
+    destruct Hc as [-> Hf]. cbn. apply IH. eapply N.le_trans; [exact Hf|apply post_L].
+  - pose proof (park_ok_model s lo pk g a i Hlo) as Hc.
+    destruct (park_model p tv s pk g a i) as [[[[s1 q1] q2] q3] q4] eqn:Hm. cbn. rewrite Hm. cbn.
+    destruct Hc as [-> Hf]. cbn. apply IH. eapply N.le_trans; [exact Hf|apply post_L].
 Qed.
 
 End ok.
 
-(** for every case that does not park a verifier call inside setLocalHead (the family of
-    the F19 witness, whose recovered instances form known-finding class 1): the check
-    accepts the observations the model itself produces *)
+(** for every case: the check accepts the observations the model itself produces *)
 Theorem model19_ok : forall p range sync store now ops,
-  existsb is_parked ops = false ->
   ok19 (Case19 p range sync store now (model19 (Case19 p range sync store now ops))) = true.
 Proof.
-  intros p range sync store now ops Hc. unfold ok19, model19. cbn. apply ok_fill; [lia|exact Hc].
+  intros p range sync store now ops. unfold ok19, model19. cbn. apply ok_fill. lia.
 Qed.
 
-(** inside the class the model itself shows the violation (the Coq side of finding F19) *)
-Example model19_park_fails :
-  ok19 (Case19 rf_p 0 false (Some (rf_h 17)) 1000
-         (model19 (Case19 rf_p 0 false (Some (rf_h 17)) 1000
-            [KPark true (rf_h 19) (rf_h 20) (HIn 5 GFail ([], false) (TOk None) ([], false)) None None None None]))) = false.
-Proof. vm_compute. reflexivity. Qed.
-
-Example model19_park_class :
-  class19 (Case19 rf_p 0 false (Some (rf_h 17)) 1000
-         (model19 (Case19 rf_p 0 false (Some (rf_h 17)) 1000
-            [KPark true (rf_h 19) (rf_h 20) (HIn 5 GFail ([], false) (TOk None) ([], false)) None None None None]))) = 1.
+(** the former witness of F19: the model now shows 20, 20, 20, 20 *)
+Example model19_park_fixed :
+  model19 (Case19 rf_p 0 false (Some (rf_h 17)) 1000
+            [KPark true (rf_h 19) (rf_h 20) (HIn 5 GFail ([], false) (TOk None) ([], false)) None None None None])
+  = [KPark true (rf_h 19) (rf_h 20) (HIn 5 GFail ([], false) (TOk None) ([], false))
+       (Some (BOk 20 20)) (Some (BOk 20 20)) (Some (BOk 20 20)) (Some (BOk 20 20))].
 Proof. vm_compute. reflexivity. Qed.
